@@ -39,7 +39,23 @@ def make_recorder(pa, inner):
 
         @property
         def sample_from_continuum(self):
-            s = self.inner.sample_from_continuum
+            # termination of one draw without a clock: the shuffle sampler retries while its sample is empty, every retry
+            # calls the public add_annotator once per sampled annotator; tens of thousands of calls inside ONE draw mean
+            # that no retry can ever succeed (e.g. annotators taken from outside the ground truth and all empty)
+            C = pa.Continuum
+            orig = C.add_annotator
+            count = [0]
+
+            def counting(self_, annotator):
+                count[0] += 1
+                if count[0] > 20000:
+                    raise Violation("sampler-does-not-terminate", f"{count[0]} add_annotator calls inside one draw")
+                return orig(self_, annotator)
+            C.add_annotator = counting
+            try:
+                s = self.inner.sample_from_continuum
+            finally:
+                C.add_annotator = orig
             self.draws.append(s)
             return s
     return Recorder()
